@@ -315,16 +315,18 @@ def check_histories(acc, E, query, series, penalty, args1, args2, depth):
 def universe(tier, seed, shard, nshards):
     A = univ.alphabet(univ.BASE3, seed)
     thorough = tier == 'thorough'
-    queries = univ.series(A, 1, 3)
-    sers = univ.series(A, 1, 6 if thorough else 5)
+    queries = univ.series(A, 1, 4 if thorough else 3)
+    sers = univ.series(A, 1, 7 if thorough else 5)
     idx = 0
     for q in queries:
         for s in sers:
             idx += 1
             if idx % nshards != shard:
                 continue
+            if len(q) == 4 and len(s) > 5:
+                continue
             for pen in (0, 0.5, 0.1):
-                if len(s) <= 4:
+                if len(s) <= (5 if thorough else 4):
                     args = ARGS
                 else:
                     args = [a for a in ARGS if a['k'] in (2, None) and a['minlength'] == 2][:6] if (len(s) == 5 or pen == 0.5) else []
@@ -384,9 +386,9 @@ def run(ctx):
     acc = core.run_sharded(worker, extra=(ctx.tier, ctx.seed))
     return core.finish(
         PROP, ctx.tier, ctx.seed, acc,
-        rule='E1: every (query len 1..3, series len 1..%d) pair over a 3-letter alphabet x penalty{0,.5,.1} x 48 iterator argument sets x both engines; E2: every operation history up to depth %d over '
+        rule='E1: every (query len 1..3 (4 in thorough, with series <= 5), series len 1..%d) pair over a 3-letter alphabet x penalty{0,.5,.1} x 48 iterator argument sets x both engines; E2: every operation history up to depth %d over '
              '{align, matching_function, best_match, next(iterator 1), next(iterator 2), reset} on one live object; non-trivial = real warping (best start differs from the rigid one) / history length >= 2'
-             % (6 if ctx.thorough else 5, 4 if ctx.thorough else 3),
+             % (7 if ctx.thorough else 5, 4 if ctx.thorough else 3),
         bounds={'alphabet': list(univ.alphabet(univ.BASE3, ctx.seed)), 'kbest_args': 'k{1,2,3,None} x overlap{0,1} x minlength{1,2} x maxlength{None,2,3} (all 48 for series <= 4, 6 for longer)',
                 'ndim': 'ndim 2: query len 1..2, series len 1..3', 'histories': '6 (query, series) pairs x 3 argument pairs x 2 penalties x 2 engines'},
         assumptions=['reference matching function = brute force over all start points with the reference DTW',
